@@ -13,7 +13,7 @@ from mpsa.report import Checker
 from . import server
 from .common import SERVLET, WORKER, build_cfg, make_fallible, tuple_item
 from .fifo import QUEUE_CTORS
-from .fresh import fresh_chain
+from .fresh import _value_names, fresh_chain
 
 # functions that contain service loops with (id, payload) puts
 SERVICE_FUNCS = [
@@ -81,7 +81,7 @@ def check_id_freshness(ck: Checker, rid: str):
                 names = [item.id]
                 what = f'`{item.id}`'
             else:
-                names = sorted({x.id for e in item.elts for x in walk_shallow(e) if isinstance(x, ast.Name)})
+                names = sorted({nm for e in item.elts for nm in _value_names(e)})  # a component that is itself a `q.get()` is an origin
                 what = f'`{norm_text(item)}`'
             probs = []
             for nm in names:
